@@ -904,6 +904,12 @@ namespace chaiscript {
         return false;
       }
 
+      /// The words Id() turns into constants instead of identifiers
+      static bool is_literal_word(std::string_view t_text) noexcept {
+        return t_text == "true" || t_text == "false" || t_text == "Infinity" || t_text == "NaN" || t_text == "__LINE__"
+            || t_text == "__FILE__" || t_text == "__FUNC__" || t_text == "__CLASS__" || t_text == "_";
+      }
+
       /// Reads (and potentially captures) an identifier from input
       bool Id(const bool validate) {
         SkipWS();
@@ -911,7 +917,9 @@ namespace chaiscript {
         const auto start = m_position;
         if (Id_()) {
           auto text = Position::str(start, m_position);
-          const auto text_hash = utility::hash(text);
+          // the switch below dispatches on a 32 bit hash: only an identifier spelled exactly like one of
+          // the literal words may take one of its cases, anything else is an ordinary name
+          const auto text_hash = is_literal_word(text) ? utility::hash(text) : utility::hash("");
 
           if (validate) {
             validate_object_name(text);
